@@ -10,6 +10,8 @@ import (
 	"sort"
 	"strconv"
 	"strings"
+	"sync"
+	"sync/atomic"
 	"testing"
 	"time"
 
@@ -636,5 +638,103 @@ func runC20Multi(c C20Multi, info *kit.Info) *kit.Finding {
 
 func TestC20_Multi(t *testing.T) {
 	p := kit.Prop[C20Multi]{ID: "C20", Name: "Multi", Quick: 8000, Thorough: 400000, Gen: genC20Multi, Run: runC20Multi}
+	p.Execute(t)
+}
+
+// ---- labels under concurrent scrapes -------------------------------------------------------------
+// With location lookup enabled no series ever carries the empty location (that label means "lookup disabled"):
+// a client's label is decided by its address class alone, also for a scrape that lands while the client is
+// being registered.
+
+type C20Conc struct {
+	Workers   int   `json:"workers"`
+	Scrapers  int   `json:"scrapers"`
+	Ops       int   `json:"ops"`
+	LatencyUs int   `json:"db_latency_us"`
+	Seed      int64 `json:"seed"`
+}
+
+func genC20Conc(t *rapid.T) C20Conc {
+	return C20Conc{Workers: rapid.IntRange(2, 12).Draw(t, "workers"), Scrapers: rapid.IntRange(1, 4).Draw(t, "scrapers"), Ops: rapid.IntRange(20, 200).Draw(t, "ops"),
+		LatencyUs: rapid.SampledFrom([]int{0, 50, 500}).Draw(t, "latency"), Seed: rapid.Int64Range(1, 1<<40).Draw(t, "seed")}
+}
+
+type c20SlowDB struct {
+	fakeDB
+	latency time.Duration
+}
+
+func (d *c20SlowDB) GetIPInfo(ip net.IP) (ipinfo.IPInfo, error) {
+	if d.latency > 0 {
+		time.Sleep(d.latency)
+	}
+	return ipinfo.IPInfo{CountryCode: "BR", ASN: ipinfo.ASN{Number: 64512, Organization: "org"}}, nil
+}
+
+func runC20Conc(c C20Conc, info *kit.Info) *kit.Finding {
+	sm, err := outline_prometheus.NewServiceMetrics(&c20SlowDB{latency: time.Duration(c.LatencyUs) * time.Microsecond})
+	if err != nil {
+		return kit.Violation("expo:setup", "%v", err)
+	}
+	reg := prometheus.NewRegistry()
+	reg.MustRegister(sm)
+	var stop atomic.Bool
+	var bad atomic.Pointer[kit.Finding]
+	var swg, wg sync.WaitGroup
+	scrapes := atomic.Int64{}
+	for s := 0; s < c.Scrapers; s++ {
+		swg.Add(1)
+		go func() {
+			defer swg.Done()
+			for !stop.Load() {
+				mfs, err := reg.Gather()
+				if err != nil {
+					bad.CompareAndSwap(nil, kit.Violation("expo:gather", "%v", err))
+					return
+				}
+				scrapes.Add(1)
+				for _, mf := range mfs {
+					for _, m := range mf.GetMetric() {
+						for _, l := range m.GetLabel() {
+							if l.GetName() == "location" && l.GetValue() == "" {
+								bad.CompareAndSwap(nil, kit.Violation("location:empty-with-lookup-enabled", "a scrape concurrent with client traffic shows %s with location=\"\" although location lookup is enabled (every client of this history is in the database's country BR)", mf.GetName()))
+							}
+						}
+					}
+				}
+			}
+		}()
+	}
+	for w := 0; w < c.Workers; w++ {
+		wg.Add(1)
+		go func(w int) {
+			defer wg.Done()
+			for i := 0; i < c.Ops && bad.Load() == nil; i++ {
+				n := c.Seed + int64(w)*1_000_003 + int64(i)
+				ip := net.IPv4(8, byte(n>>16), byte(n>>8), byte(n)) // a new public client each time
+				if i%2 == 0 {
+					m := sm.AddOpenTCPConnection(kit.NewMemConn(nil, &net.TCPAddr{IP: ip, Port: 4000 + w}))
+					m.AddAuthenticated("key-1")
+					m.AddClosed("OK", metrics.ProxyMetrics{ClientProxy: 1, ProxyTarget: 1, TargetProxy: 1, ProxyClient: 1}, time.Millisecond)
+				} else {
+					u := sm.AddUDPNatEntry(&net.UDPAddr{IP: ip, Port: 4000 + w}, "key-1")
+					u.AddPacketFromClient("OK", 10, 5)
+					u.RemoveNatEntry()
+				}
+			}
+		}(w)
+	}
+	wg.Wait()
+	stop.Store(true)
+	swg.Wait()
+	if f := bad.Load(); f != nil {
+		return f
+	}
+	info.NonTrivial, info.Steps = scrapes.Load() >= 2, c.Workers*c.Ops
+	return nil
+}
+
+func TestC20_Concurrent(t *testing.T) {
+	p := kit.Prop[C20Conc]{ID: "C20", Name: "Concurrent", Quick: 60, Thorough: 4000, Gen: genC20Conc, Run: runC20Conc}
 	p.Execute(t)
 }
